@@ -15,11 +15,12 @@ Proof.
   - apply String.eqb_eq in H. now subst.
   - apply String.eqb_eq in H. now subst.
   - reflexivity.
+  - apply andb_prop in H. destruct H as [H1 H2]. apply String.eqb_eq in H1. apply String.eqb_eq in H2. now subst.
 Qed.
 
 Lemma prim_eqb_refl p : prim_eqb p p = true.
 Proof.
-  destruct p; cbn; auto using Z.eqb_refl, Bool.eqb_reflx, String.eqb_refl.
+  destruct p; cbn; rewrite ?String.eqb_refl; auto using Z.eqb_refl, Bool.eqb_reflx, String.eqb_refl.
 Qed.
 
 (* zip_ok: wherever the pattern has a primitive and the student list is long enough, the student has the same
